@@ -300,3 +300,21 @@ Proof.
     destruct (Hc q Eq) as [T _]. unfold tip_at in T.
     destruct (at_path (fun s => if is_tip s then Some s else None) q ch); [discriminate|congruence].
 Qed.
+
+(** ... named [nm] *)
+Definition tipn_at (nm : string) (P : list nat) (t : utree) : Prop :=
+  at_path (fun s => if is_tip s && String.eqb (uname s) nm then Some s else None) P t <> None.
+
+Theorem find_sub_atn nm : forall t P, find_sub nm t = Some P -> tipn_at nm P t.
+Proof.
+  induction t as [n c sl IH] using utree_ind'. intros P H. cbn [find_sub] in H.
+  replace (fun ch => find_sub nm ch) with (find_sub nm) in H by reflexivity.
+  assert (F : Forall (fun s => match s with Some (_, t) => sub_link nm t | None => True end) sl).
+  { apply Forall_forall. intros [[e ch]|] _; [apply rm_sub_find|exact I]. }
+  pose proof (go_link nm sl 0 F) as L. rewrite H in L. destruct L as (k & e & ch & A1 & _ & _ & A4). cbn [Nat.add] in A4.
+  destruct A4 as [[Et ->]|[Et (q & Eq & ->)]]; unfold tipn_at; rewrite at_path_cons, A1.
+  - cbn [at_path]. rewrite Et. discriminate.
+  - pose proof (proj1 (Forall_forall _ sl) IH _ (nth_error_In _ _ A1)) as Hc. cbn beta iota in Hc.
+    pose proof (Hc q Eq) as T. unfold tipn_at in T.
+    destruct (at_path (fun s => if is_tip s && String.eqb (uname s) nm then Some s else None) q ch); [discriminate|congruence].
+Qed.
